@@ -7,12 +7,15 @@ pub mod c18;
 pub mod c20;
 pub mod codec;
 pub mod connmon;
+pub mod matrix;
 
 pub fn dispatch(ctx: &Ctx) -> Option<Report> {
     Some(match ctx.prop.as_str() {
         "C02" => codec::run_c02(ctx),
         "C03" => codec::run_c03(ctx),
         "C04" => c04::run(ctx),
+        "C11" => matrix::run_c11(ctx),
+        "C17" => matrix::run_c17(ctx),
         "C18" => c18::run(ctx),
         "C20" => c20::run(ctx),
         "C05" | "C06" | "C07" | "C08" | "C12" | "C13" | "C14" | "C15" | "C19" => return connmon::run(ctx),
